@@ -12,6 +12,12 @@ CLAIMED = {
             "bounded model checking (kernel scope): panic-freedom of the scalar kernels a compilation feeds with author-controlled numbers "
             "(get_indent, @for ranges, Number/Numeric/colour kernels: every f64 / i64 input within the stated bounds) and of every overflow/"
             "index assertion inside the string/list/random closures; the parser and evaluator are outside (stated in evidence)"),
+    "C02": ("E2", "symbolic execution of Context::lock_loading / unlock_loading (MIR), decided by z3 and cvc5",
+            "bounded model checking (lock scope): a loop error is raised exactly when the file's name is already registered as being loaded, and "
+            "unlock removes the same key; URL resolution, pairing of lock/unlock and termination are outside"),
+    "C03": ("E2", "symbolic execution of CssData::load_module (MIR), decided by z3 and cvc5",
+            "bounded model checking (cache scope): one inductive step from an arbitrary cache: the module initialiser runs only on a miss, exactly once, "
+            "and its result is cached under the same key; canonical spelling of the key is outside"),
     "C06": ("E2", "symbolic execution of the closures' MIR, obligations decided by z3 and cvc5",
             "bounded model checking (sequential scope): one inductive step of unique-id() from an arbitrary counter state; random($limit) in "
             "[1,limit] for every limit; concurrency is outside the claim"),
@@ -49,8 +55,6 @@ CLAIMED = {
 }
 
 NOT_APPLICABLE = {
-    "C02": "module loading: Context::find_file/lock_loading and the recursive handle_item over a file graph are BTreeMap<String,..> + format! + SourcePos drop glue; CBMC gives no verdict even on Scope::define (240 s) and the MIR engine has no model of the loader's iterator chains",
-    "C03": "module cache (CssData::load_module keyed by path strings) lives in the same evaluator/loader code as C02: not encodable within reach",
     "C04": "candidate file order is a static table walked by iterator chains over Strings inside Context::find_file / FsLoader: neither engine can execute it",
     "C05": "histories of compilations and thread schedules: Kani does not model concurrency and the sequential part needs whole compilations",
     "C07": "property of whole output buffers (CssBuf, into_buffer): needs parser + evaluator + core::fmt, which CBMC cannot execute (one concrete byte through the parser: no verdict in 900 s)",
